@@ -4,3 +4,10 @@ set -e
 cd "$(dirname "$0")/lean"
 mkdir -p .lake
 flock .lake/verif-build.lock lake build drv SysLoss
+# property theorems (each check re-builds / re-audits its own module; pre-building keeps the checks fast)
+mods=""
+for f in SysLoss/Props/*.lean; do
+  m=$(basename "$f" .lean)
+  mods="$mods SysLoss.Props.$m"
+done
+flock .lake/verif-build.lock lake build $mods || echo "setup: some property modules did not build (their checks will report it)"
